@@ -1,4 +1,4 @@
-import ScrutModel.Lemmas.GenerateMarkdown
+import ScrutModel.Lemmas.GenerateCram
 import ScrutModel.Props.C11
 /-!
 # C09 — Generated tests pass against the very output they were generated from
@@ -23,7 +23,10 @@ the command is no continuation, `[code]` is the only exit code line), so `Markdo
 (Markdown model, C06) returns exactly one test with the same command lines, the generated texts as
 expectations and the exit code. Not proved in Lean for Cram (left to the correspondence of `create …
 = real document` on every case and to the end-to-end oracle real generator → real parser → real
-`validate`): that the Cram document parser hands exactly these lines to the line parser.
+`validate`): nothing of the `create` chain any more — the Cram hop is `C09_create_cram_end_to_end`
+(the document is the rendering of one test of C07's grammar, `cram_indented` puts every generated
+line behind two blanks, no generated character is a carriage return or line feed:
+`C09_line_printable`).
 
 Parameters: `isOther` = `char::is_other()` (unicode-mode statements assume `AsciiContract`, as in
 C11); `P : Grammar.Params` with `StdParams P`: `\s` is Unicode white space and the `escaped`
@@ -179,6 +182,42 @@ theorem C09_create_markdown_end_to_end (P : Params) (hP : StdParams P) (m : Mode
                             lineNumber := 2
                             config := some (cfgInner cfg) }] } :=
   create_markdown_end_to_end hP m isOther hC env hlang hcfg hexp cfg c0 more hlines hcr out code h0 h1
+
+/-- **C09 (printable)**: every character of a generated expectation line is printable -- ascii
+mode: `0x20..0x7e`; unicode mode: no `is_other` character -- in particular it is neither a carriage
+return nor a line feed, whatever bytes the output line holds -/
+theorem C09_line_printable (m : Mode) (isOther : Char → Bool) (hC : m = .unicode → AsciiContract isOther)
+    (line : List UInt8) (t : List Char) (ht : expectationLine m isOther line = some t) :
+    ∀ c ∈ t, (match m with | .ascii => 0x20 ≤ c.toNat ∧ c.toNat ≤ 0x7e | .unicode => isOther c = false) ∧
+      c ≠ '\r' ∧ c ≠ '\n' := by
+  intro c hc
+  have h := expectationLine_printable m isOther hC line t ht c hc
+  refine ⟨?_, charOK_not_ctl hC h⟩
+  cases m <;> exact h
+
+/-- **C09 (create, Cram, through the document parser)**: the same for `create --format cram`: the
+document is read back by `CramParser::parse` (indentation 2) as exactly one test with the same
+command lines (no line feed or carriage return inside them, the last one not empty), the generated
+texts as expectations, the exit code, and the Cram default configuration. -/
+theorem C09_create_cram_end_to_end (P : Params) (hP : StdParams P) (m : Mode) (isOther : Char → Bool)
+    (hC : m = .unicode → AsciiContract isOther) (expOk : List Char → Bool)
+    (hexp : ∀ t e, parse P t = .ok e → expOk t = true)
+    (cfg : ConfigDiff) (c0 : List Char) (more : List (List Char)) (hlines : CmdLines (c0 :: more))
+    (hcr : ∀ l ∈ c0 :: more, '\r' ∉ l)
+    (out : List UInt8) (code : Int) (h0 : 0 ≤ code) (h1 : code ≤ 255) :
+    ∃ doc ts, create .cram m isOther cfg (joinNl (c0 :: more)) out code = some doc ∧
+      ts.length = (Newline.splitAtNewline out).length ∧
+      (∀ i (h : i < (Newline.splitAtNewline out).length),
+        expectationLine m isOther (Newline.splitAtNewline out)[i] = ts[i]?) ∧
+      Cram.parseCram expOk 2 doc
+        = .ok (Cram.DocConfig.defaultCram,
+            [{ title := []
+               command := c0 :: more
+               exitCode := if code ≠ 0 then some code.toNat else none
+               expectations := ts
+               lineNumber := 1
+               config := some Cram.TCConfig.defaultCram }]) :=
+  create_cram_end_to_end hP m isOther hC expOk hexp cfg c0 more hlines hcr out code h0 h1
 
 /-- the Markdown wrapper: the fence has at least three backticks and more than any line of the
 block has at its start, so no generated line closes the block -/
